@@ -46,6 +46,7 @@ func genCase(t *rapid.T, withInvalid bool) *Case {
 	}
 	c.UserOpts = rapid.SampledFrom([]int{0, 0, 0, 0, 1, 2, 3, 4}).Draw(t, "userOpts")
 	c.NoDialFunc = rapid.IntRange(0, 9).Draw(t, "noDialFunc") == 0
+	c.LateAppend = rapid.IntRange(0, 4).Draw(t, "lateAppend") == 0
 	if rapid.IntRange(0, 5).Draw(t, "extClose") == 0 {
 		c.ExtClose = rapid.IntRange(1, 4).Draw(t, "extCloseWhich")
 	}
@@ -179,7 +180,11 @@ func TestC17GME(t *testing.T) {
 	}
 	rapid.Check(t, func(rt *rapid.T) {
 		c := &Case{Init: *genOptions(rt), MinSize: rapid.IntRange(0, 3).Draw(rt, "minSize"), MaxSize: rapid.SampledFrom([]int{0, 0, 3, 4}).Draw(rt, "maxSize"),
-			UserOpts: rapid.SampledFrom([]int{0, 0, 1, 2, 3, 4}).Draw(rt, "userOpts")}
+			UserOpts: rapid.SampledFrom([]int{0, 0, 1, 2, 3, 4}).Draw(rt, "userOpts"), LateAppend: rapid.IntRange(0, 2).Draw(rt, "lateAppend") == 0}
+		if rapid.IntRange(0, 1).Draw(rt, "withUpdate") == 0 {
+			// an update that brings in endpoints not dialed so far: their pools get the same configuration
+			c.Ops = []Op{{K: "update", Opts: genOptions(rt)}}
+		}
 		if c.MaxSize != 0 && c.MaxSize < c.MinSize {
 			c.MaxSize = c.MinSize
 		}
